@@ -9,6 +9,24 @@
 #include "upipe/upool.h"
 #include "upipe/ubuf_mem_common.h"
 #ifdef UNITS_QUEUE
+/* C08: the queue / dealer PROTOCOLS are translated; what they are built on is cut out here and modelled atomically by
+ * the harness: the FIFO (its linearizability is C07's subject), the event descriptors (eventfd(2) semantics; the
+ * errno retry loops of ueventfd.h are not encoded) and the pump start/stop of the caller's event loop. */
+#include "upipe/ueventfd.h"
+#include "upipe/upump.h"
+bool ext_fifo_push(struct ufifo *fifo, void *element);
+void *ext_fifo_pop(struct ufifo *fifo);
+bool ext_ev_read(struct ueventfd *fd);
+bool ext_ev_write(struct ueventfd *fd);
+void ext_upump_start(struct upump *upump);
+void ext_upump_stop(struct upump *upump);
+#undef ufifo_pop
+#define ufifo_push(f, e) ext_fifo_push(f, e)
+#define ufifo_pop(f, type) (type)ext_fifo_pop(f)
+#define ueventfd_read(fd) ext_ev_read(fd)
+#define ueventfd_write(fd) ext_ev_write(fd)
+#define upump_start(u) ext_upump_start(u)
+#define upump_stop(u) ext_upump_stop(u)
 #include "upipe/uqueue.h"
 #include "upipe/udeal.h"
 #endif
@@ -19,15 +37,17 @@ NI void w_shared_use(struct ubuf_mem_shared *s) { ubuf_mem_shared_use(s); }
 NI bool w_shared_release(struct ubuf_mem_shared *s) { return ubuf_mem_shared_release(s); }
 NI bool w_ulifo_push(struct ulifo *l, void *p) { return ulifo_push(l, p); }
 NI void *w_ulifo_pop(struct ulifo *l) { return ulifo_pop(l, void *); }
+#ifndef UNITS_QUEUE
 NI bool w_ufifo_push(struct ufifo *l, void *p) { return ufifo_push(l, p); }
 NI void *w_ufifo_pop(struct ufifo *l) { return ufifo_pop(l, void *); }
+#endif
 NI void *w_upool_alloc(struct upool *p) { return upool_alloc(p, void *); }
 NI void w_upool_free(struct upool *p, void *o) { upool_free(p, o); }
 #ifdef UNITS_QUEUE
 NI bool w_uqueue_push(struct uqueue *q, void *p) { return uqueue_push(q, p); }
 NI void *w_uqueue_pop(struct uqueue *q) { return uqueue_pop(q, void *); }
 NI bool w_udeal_grab(struct udeal *d) { return udeal_grab(d); }
-NI void w_udeal_start(struct udeal *d, struct upump *u) { udeal_start(d, u); }
+NI uint32_t w_udeal_start_count(struct udeal *d) { return uatomic_fetch_add(&d->waiters, 1); }  /* udeal_start without the pump / callback glue */
 NI void w_udeal_yield(struct udeal *d, struct upump *u) { udeal_yield(d, u); }
 NI void w_udeal_abort(struct udeal *d, struct upump *u) { udeal_abort(d, u); }
 #endif
